@@ -1,24 +1,28 @@
 """C06 — approximation guarantee: weight <= (2k-1) x optimum, exact for k = 1, k = 0 rejected.
 Theorems: Properties_C06.v (k = 0 returns the error value before emitting; k = 1 drops nothing and — given a minimum basis
-of the spanner from the exact phase — yields a minimum cycle basis of the caller's graph; the (2k-1) bound and the per-edge
-2k bound are stated, not proved).  Tie: the correspondence of C05 (shared experiment).  Judge: every answer's total weight
+of the spanner from the exact phase — yields a minimum cycle basis of the caller's graph; the per-edge 2k bound and the global (2k-1) bound are proved: C06_edge,
+C06_global*), Properties_C06_trees.v (premise-free k = 1 / (2k-1) statements for the tree-based entry points); the TBB entry
+points: Properties_C03_approx*.v, registered under C05.  Tie: the correspondence of C05 (shared experiment, incl. the three
+*_tbb entry points under the controllable TBB shim).  Judge: every answer's total weight
 and returned value against the optimum from the verified `optw` (RefModel) and from the independent oracle:
 <= (2k-1) * opt, = opt for k = 1, and k = 0 must print exactly `THROW runtime_error EMITTED 0`."""
 import lib, approx_common
 
 PID = "C06"
-THEOREMS = ["Properties_C06.v"]
+THEOREMS = ["Properties_C06.v", "Properties_C06_trees.v"]
 
 
 def check(tier, seed):
     c = lib.Check(PID, tier, seed, THEOREMS)
     c.rule = ("(entry point in {approx signed, fvs_trees, iso_trees}) x (double|int weights) x k in {0,1,2,3,5,50} x graph (families of C05: girth > 2k families, "
-              "structured, random; weights unit/ties/wide/pow2); distinct by md5; non-trivial = k = 0 (must throw) or cycle space dimension >= 1")
+              "structured, random; weights unit/ties/wide/pow2); distinct by md5; non-trivial = k = 0 (must throw) or cycle space dimension >= 1; "
+              "TBB part as in C05 (three *_tbb entry points under bit-stream schedules and independent insertion orders)")
     c.step_prove()
     approx_common.run(c, tier, "bound")
+    approx_common.run_tbb(c, tier, "bound")
     return c.finish(
         assumptions=["the optimum is computed by the verified reference (extracted RefModel.opt_weight) on the smaller graphs and by tools/mcb_oracle.py (Horton + Gauss) on all; they must agree",
-                     "the (2k-1) bound itself (C06_global_stmt) and the per-edge bound (C06_edge_stmt) are NOT proved; they are checked on every generated case",
+                     "the (2k-1) bound (C06_global*, C06_global_fvs_trees, C03_approx_*_tbb) and the per-edge bound (C06_edge) are theorems about the models; they are additionally decided on every generated case",
                      "oracles and exact domain as in C05"],
         explanation="k = 0 and k = 1 are theorems about the model (tied to the code by the exact correspondence of C05); the (2k-1) factor is decided per generated "
                     "(graph, k) against the verified optimum.")
